@@ -4,6 +4,7 @@ package router
 // with scripted upstreams, and client seams for every listener kind.
 
 import (
+	"runtime/debug"
 	"context"
 	"errors"
 	"fmt"
@@ -26,7 +27,9 @@ import (
 	"github.com/rs/zerolog"
 )
 
-func init() { zerolog.SetGlobalLevel(zerolog.Disabled) }
+func init() {
+	debug.SetMaxStack(32 << 20) // a runaway recursion in the implementation fails fast instead of growing to 1 GB
+ zerolog.SetGlobalLevel(zerolog.Disabled) }
 
 var vRace = os.Getenv("VERIF_RACE") == "1"
 
